@@ -215,6 +215,10 @@ NAMING_HYPHEN = {"r": "r", "a": "a", "b": "a-b", "c": "a+b", "d": "a b", "e": "a
 # component names of very different lengths: a module on a shallow level has a longer dotted name than modules
 # two levels further down (r.cccccccccccc vs r.a.a.a)
 NAMING_LENGTHS = {"r": "r", "a": "a", "b": "bbbbbbbb", "c": "cccccccccccc", "d": "dd", "e": "eeeeee", "p": "p", "q": "qqqq"}
+# siblings whose names differ in letter case only (on a case-sensitive file system these are different modules)
+NAMING_CASEONLY = {"r": "r", "a": "shapes", "b": "Shapes", "c": "SHAPES", "d": "shapeS", "e": "sHapes", "p": "p", "q": "P"}
+# a leaf called __init__ (what the scanner makes of a package's own file) and other dunder names
+NAMING_DUNDER = {"r": "r", "a": "a", "b": "__init__", "c": "__main__", "d": "_", "e": "__", "p": "__init__x", "q": "x__init__"}
 NAMINGS = {
     "identity": {},
     "hyphen": NAMING_HYPHEN,
@@ -222,4 +226,6 @@ NAMINGS = {
     "adversarial": NAMING_ADVERSARIAL,
     "unicode": NAMING_UNICODE,
     "lengths": NAMING_LENGTHS,
+    "caseonly": NAMING_CASEONLY,
+    "dunder": NAMING_DUNDER,
 }
